@@ -353,7 +353,11 @@ def r4_3(run):
     run.ob("reduce_lookups|rows-of-connected", len(rows) == 1 and key(rows[0].value) == key(expect(ix, rl, "comp_pit[connected, :]")),
            "the active pit holds exactly the connected rows, in pit order", w, detail=show(rows[0].value)[:120] if rows else None)
     # per-table index lookups: inactive -> -1, active -> position in the active pit
-    loop_st = [s_ for s_ in st if s_.loops and base_of(s_.base)[0] == "loop"]
+    IL = expect(ix, rl, "get_lookup(net, comp_type, 'index')")
+    def per_table_lookup(b):
+        # the index lookup of the table the loop is at: the loop's value variable, or <index lookup>[<loop key>]
+        return b[0] == "loop" or (b[0] == "idx" and key(b[1]) == key(IL) and len(b[2]) == 1 and b[2][0][0] == "loop")
+    loop_st = [s_ for s_ in st if s_.loops and per_table_lookup(base_of(s_.base))]
     neg = [s_ for s_ in loop_st if s_.value == C(-1)]
     pos = [s_ for s_ in loop_st if s_.value != C(-1)]
     _shape(len(neg) <= 1 and len(pos) <= 1, "one store per class of elements in the index-lookup loop")
